@@ -563,6 +563,63 @@ def check(ctx):
     ctx.ob('C20.7', cfunc, sched[0] if sched else None, ok,
            'both quota tests precede the scheduling of the new instances',
            construct='quota tests dominate scheduling')
+    # AGREE: the per-proid figure is looked up under the key the master
+    # publishes it under - the instance name up to its first dot, on both
+    # sides (a key derived differently reads 0 and the quota never binds)
+    master = index.get_class(K.MASTER, 'Master')
+    agg = master.methods.get('_calculate_aggregate')
+    ctx.require(agg is not None, 'Master._calculate_aggregate')
+
+    def prefix_key(func, expr):
+        """expr is <name>[:<name>.find('.')] for a plain name."""
+        expr = K.rexpr(func, expr)
+        return isinstance(expr, ast.Subscript) and \
+            isinstance(expr.value, ast.Name) and \
+            isinstance(expr.slice, ast.Slice) and \
+            expr.slice.lower is None and expr.slice.step is None and \
+            N.txt(expr.slice.upper) == "%s.find('.')" % expr.value.id
+    wkeys = [sub.slice for sub in K.walk_no_nested(agg.node)
+             if isinstance(sub, ast.Subscript) and
+             isinstance(sub.ctx, ast.Store)]
+    for sub in K.walk_no_nested(agg.node):
+        if isinstance(sub, ast.AugAssign) and isinstance(sub.target,
+                                                         ast.Subscript):
+            wkeys.append(sub.target.slice)
+    rkeys = [c.args[0] for c in K.calls(cfunc.node)
+             if K.is_meth(c, 'get') and c.args and
+             'stats' in (K.recv_text(c) or '')]
+    ctx.ob('C20.7', cfunc, rkeys[0] if rkeys else None,
+           bool(wkeys) and bool(rkeys) and
+           all(prefix_key(agg, k) for k in wkeys) and
+           all(prefix_key(cfunc, k) for k in rkeys),
+           'the per-proid count is published and looked up under the same '
+           "key, the name up to its first '.': written %s, read %s" % (
+               [N.txt(k) for k in wkeys], [N.txt(k) for k in rkeys]),
+           construct='proid key agreement')
+    # the rate budget of a monitor is rebuilt only when its node really
+    # changed: the data watch of the monitor loop invokes its callback on a
+    # new version (or the first time), not on a mere reconnect
+    zw = index.module('treadmill.zkwatchers', required=False)
+    if zw is not None and 'ExistingDataWatch' in zw.classes:
+        gd = zw.classes['ExistingDataWatch'].methods.get('_get_data')
+        ctx.require(gd is not None, 'ExistingDataWatch._get_data')
+        ggraph = ctx.cfg(gd)
+        gnz = N.Normaliser()
+        fires = [n for n, c in K.nodes_calling(
+            ggraph, lambda c: K.is_meth(c, '_log_func_exception') and
+            c.args and N.txt(c.args[0]) not in ('None',))]
+        ctx.require(fires, 'callback invocation with data in _get_data')
+        for node in fires:
+            okv = K.guarded_by(ggraph, node, lambda e: any(
+                a.key[0] == 'cmp' and a.key[1] == '!=' and
+                len(a.key[2]) == 2 and
+                'self._version' in [t for t, _c in a.key[2]] and
+                any(t.endswith('.mzxid') for t, _c in a.key[2])
+                for a in gnz.facts_of_edge(e)))
+            ctx.ob('C20.3', gd, node, okv,
+                   'the monitor callback runs only when the node version '
+                   'changed (a reconnect alone does not hand out a fresh '
+                   'budget)', construct='data watch fires on change')
 
 
 _AM = 'lib/python/treadmill/sproc/appmonitor.py'
